@@ -190,7 +190,11 @@ pub fn interleave(r: &mut Rng, mut lists: Vec<Vec<Tx>>) -> Vec<Tx> {
 pub fn gen_security(r: &mut Rng, sec: &str, names: &mut Vec<String>) -> (Vec<Tx>, Option<(String, Decimal, Decimal)>) {
     // every fifth security is a window-style history (loss sales with acquisitions around the
     // 30-day edges, declared superficial losses incl. 0 and 0!)
-    let c = if r.chance(20) { ledger::gen_window_case(r, None) } else { ledger::gen_case(r) };
+    let c = match r.below(10) {
+        0 => ledger::gen_window_case(r, None),
+        1 => ledger::gen_window_boundary_case(r),
+        _ => ledger::gen_case(r),
+    };
     for a in &c.uni.affs {
         let n = a.name().to_string();
         if !names.contains(&n) {
